@@ -138,6 +138,18 @@ func Anon() {
 
 func Tuple() (int, error) { return 0, nil }
 
+// function-local types that refer to themselves (through a pointer, as a map key, as an element)
+func LocalRecursive() int {
+	type link *link
+	type graph map[*graph]int
+	type tree map[string][]*tree
+	var l link
+	var g graph
+	var t tree
+	_ = l
+	return len(g) + len(t)
+}
+
 func Multi() {
 	a, err := Tuple()
 	_, _ = a, err
